@@ -111,12 +111,16 @@ def gen_history(seed, i, maxlen):
         evs.append({"e": "run", "args": {"local": d}})
         return {"project": p, "events": evs, "final": {"local": d, "apps": [n]}}
     listed = [f for f in files if f != "laze-project.yml"]
-    if listed and rng.random() < 0.1:
+    if listed and rng.random() < 0.2:
         # a listed lazefile that is missing during one run (refused: nothing may be left behind that vouches for the tree) and back for
         # the next one
         f = rng.choice(listed)
         a = rng.choice(pool[:3])
-        evs += [{"e": "remove", "f": f}, {"e": "run", "args": a}, {"e": "restore", "f": f}]
+        if rng.random() < 0.5:
+            # ... or is an empty placeholder (no document / a comment / a bare `---`) during that run: still a file the result depends on
+            evs += [{"e": "blank", "f": f, "text": rng.choice(["", "# placeholder\n", "---\n", "\n\n"])}, {"e": "run", "args": a}, {"e": "restore", "f": f}]
+        else:
+            evs += [{"e": "remove", "f": f}, {"e": "run", "args": a}, {"e": "restore", "f": f}]
         return {"project": p, "events": evs, "final": a}
     filedirs = sorted({os.path.dirname(f) for f in p["files"]})
     below = sorted((d, n) for n, ds in dirs_of.items() for dd in ds for d in filedirs if d and dd.startswith(d + "/"))
@@ -368,9 +372,16 @@ def run_history(sc):
                 h.edit(ev["f"], touch=ev["e"] == "touch")
                 out["model_events"].append({"e": "edit", "f": ev["f"]})
                 out["obs"].append({"ok": "edit"})
-            elif ev["e"] in ("remove", "restore"):
-                # for the protocol model a file that disappears or comes back is a file that changed
-                if ev["e"] == "remove":
+            elif ev["e"] in ("remove", "restore", "blank"):
+                # for the protocol model a file that disappears, is emptied or comes back is a file that changed
+                if ev["e"] == "blank":
+                    h.counter += 1
+                    path = os.path.join(h.s.d, ev["f"])
+                    st0 = os.stat(path)
+                    with open(path, "w") as fh:
+                        fh.write(ev["text"])
+                    os.utime(path, ns=(st0.st_atime_ns, st0.st_mtime_ns + h.counter * 2_000_000_000))
+                elif ev["e"] == "remove":
                     os.remove(os.path.join(h.s.d, ev["f"]))
                     missing.add(ev["f"])
                 else:
@@ -501,7 +512,7 @@ def judge(chk, sc, res):
     dirty, binary_of, uuid, wrote = {"global": False, "local": False}, {"global": 1, "local": 1}, 1, {"global": None, "local": None}
     case = {"scenario": {"events": sc["events"], "final": sc["final"], "project": sc["project"]}}
     for ev, ob in zip(sc["events"], res["obs"]):
-        if ev["e"] in ("edit", "touch", "remove", "restore"):
+        if ev["e"] in ("edit", "touch", "remove", "restore", "blank"):
             dirty = {"global": True, "local": True}
         elif ev["e"] == "swap":
             uuid = 3 - uuid
